@@ -275,6 +275,15 @@ theorem mk?_sound (name : Option String) (t : List RawIdx) (c : Option (List Raw
                 · rename_i hfront
                   simpa using hfront
 
+/-- **spelling of the name is immaterial**: every rule of `Gate.__init__` (control allowed, number of targets, the stored
+    name) looks at the upper-cased name only - two spellings of one name are accepted or rejected alike, with the same gate -/
+theorem mk?_spelling (nm0 nm1 : String) (h : nm0.toUpper = nm1.toUpper) (t : List RawIdx) (c : Option (List RawIdx)) (p : Param) (v : Bool) :
+    Gate.mk? (some nm0) t c p v = Gate.mk? (some nm1) t c p v := by
+  simp only [Gate.mk?, h]
+
+-- (`String.toUpper` does not reduce in the kernel; instances of the hypothesis - "swap" / "SWAP", "cRz" / "CRZ" - are
+-- evaluated by the compiled driver in every run: the correspondence respells a third of the gate names)
+
 /-- negative or non-integer target index ⇒ `ValueError`, whatever the other arguments -/
 theorem mk?_rejects_bad_target (name : Option String) (t : List RawIdx) (c : Option (List RawIdx)) (p : Param) (v : Bool)
     (h : Gate.checkIdx t = none) : Gate.mk? name t c p v = .error .value := by
